@@ -167,3 +167,31 @@ Definition abstract_matches (cf:cfg) : bool :=
                   forallb (fun f => existsb (fun u => existsb (fname_eqb f) (p_outs fname u)) (p_units cf)) (data_of_cleanup cf)).
 Lemma family_abstract_matches : forallb abstract_matches (family true true true) = true.
 Proof. vm_cast_no_check (eq_refl true). Qed.
+
+(* ------------------------------------------------------------------ a fresh start in a folder that holds the leftovers of a killed earlier run *)
+Definition n_over (early:bool) (s0:fsys) (cf:cfg) : nat := length (tlog (run_over early s0 cf)).
+(* the uninterrupted fresh run is not influenced by the leftovers *)
+Definition uninterrupted_ok (cf:cfg) (s0:fsys) : bool := outcome_eqb (verdict (fs (clean_run cf)) (run_over false s0 cf)) Identical.
+(* every kill point of the fresh run from its `from`-th mutation on (its parameters are saved by then) resumes to the outputs of a clean run *)
+Definition over_all (early:bool) (cf:cfg) (s0:fsys) (from:nat) : bool :=
+  let clean := fs (clean_run cf) in
+  forallb (fun k => outcome_eqb (verdict clean (resume_over early s0 cf k false)) Identical &&
+                    outcome_eqb (verdict clean (resume_over early s0 cf k true)) Identical) (seq from (n_over early s0 cf + 1 - from)).
+Definition cfA : cfg := gen_cfg [0;1;2;3] [0] [] false true false false true true true.
+Definition cfB : cfg := gen_cfg [0;1;2;3] [1;0] [1;0] true true true false true true true.
+Definition both (p:nat -> bool -> bool) (l:list nat) : bool := forallb (fun k => p k false && p k true) l.
+
+(* leftovers of the earlier run killed at ANY of its mutation points (cfA) / at the end of stage 2, in the merge phase and in the clean-up (cfB) *)
+Lemma fresh_start_uninterrupted :
+  both (fun k1 a1 => uninterrupted_ok cfA (leftovers cfA k1 a1)) (seq 1 (n_mutations cfA)) &&
+  both (fun k1 a1 => uninterrupted_ok cfB (leftovers cfB k1 a1)) (seq 1 (n_mutations cfB)) = true.
+Proof. vm_cast_no_check (eq_refl true). Qed.
+Lemma fresh_start_early_cleaning_ok :
+  both (fun k1 a1 => over_all true cfA (leftovers cfA k1 a1) 5) (seq 1 (n_mutations cfA)) &&
+  both (fun k1 a1 => over_all true cfB (leftovers cfB k1 a1) 5) [first_removal cfB; first_part_removal cfB + 2; n_mutations cfB - 4]%nat = true.
+Proof. vm_cast_no_check (eq_refl true). Qed.
+(* current code: killed right after .params was rewritten (mutation 5) the resumed run trusts the stale locks and completes with stale content *)
+Lemma fresh_start_current_refuted :
+  verdict (fs (clean_run cfA)) (resume_over false (leftovers cfA (first_removal cfA) false) cfA 5 false) = Differs /\
+  over_all false cfA (leftovers cfA (first_removal cfA) false) 5 = false.
+Proof. split; [vm_cast_no_check (eq_refl Differs)|vm_cast_no_check (eq_refl false)]. Qed.
